@@ -100,14 +100,20 @@ class Gen:
             return ops
         out = []
         for op in ops:
-            if op[0] in ('restart', 'node_start') or op == ('ready', 0):
+            if op[0] == 'refresh':
+                continue
+            idle = op[0] in ('restart', 'node_start') or op == ('ready', 0)
+            if idle:
                 out += [('drain',), ('clean_all',)]
             if op[0] == 'deliver':
                 op = ('drain',)
             out.append(op)
-            if op[0] in ('put', 'del', 'refresh', 'ready'):
+            if idle:
+                # no cache change while the manager is idle
+                out += [('drain',), ('ready', 1), ('drain',)]
+            elif op[0] in ('put', 'del', 'ready'):
                 out.append(('drain',))
-        return out
+        return out or [('drain',)]
 
     def _next_op(self, node):
         rng = self.rng
